@@ -31,6 +31,10 @@ MultiplyIntoResult(a, b, dst) ==
     LET c == Conv(a, b) IN [i \in 1 .. Len(dst) |-> IF i <= Len(c) THEN dst[i] + c[i] ELSE dst[i]]
 PointwiseResult(a, b, n) == LET c == Conv(a, b) IN [i \in 1 .. n |-> IF i <= Len(c) THEN c[i] ELSE 0]
 
+\* fft_inv_into(fft(a) .* fft(b), dst): adds the n padded coefficients to the first n cells of dst, leaves the rest alone
+InvIntoResult(a, b, n, dst) ==
+    LET c == PointwiseResult(a, b, n) IN [i \in 1 .. Len(dst) |-> IF i <= n THEN dst[i] + c[i] ELSE dst[i]]
+
 \* plan growth: the only state; it never influences a result
 VARIABLE planSize
 PlanAfter(n) == IF n > planSize THEN n ELSE planSize
